@@ -6,4 +6,4 @@ From Coq Require Import ExtrOcamlBasic.
 From BM Require Import Extract.Driver.
 Extraction Language OCaml.
 Extraction "Model.ml" Driver.model Driver.monitor_c01 Driver.monitor_c02 Driver.monitor_c03 Driver.monitor_c07
-  Driver.monitor_c11 Driver.monitor_c14 Driver.xobs_eqb Driver.mkCase.
+  Driver.monitor_c11 Driver.monitor_c14 Driver.monitor_c14_verdict Driver.xobs_eqb Driver.mkCase.
